@@ -22,6 +22,12 @@ def rand_ta(rng, nq=None, nrules=None, alpha=None, states=None, pfin=0.4):
             alpha = rng.sample(ALPHA_FULL, k)
             if not any(s[1] == 0 for s in alpha):
                 alpha[0] = ["a", 0]
+        # higher ranks (rules with three / four children, often with repeated, non-adjacent children)
+        r = rng.random()
+        if r < 0.18 and ["t", 3] not in alpha:
+            alpha = alpha + [["t", 3]]
+        elif r < 0.23 and ["w", 4] not in alpha:
+            alpha = alpha + [["w", 4]]
     if nrules is None:
         nrules = rng.choice([0, 1, 2, 3, 4, 5, 6, 7, 7])
     rules = []
@@ -76,6 +82,12 @@ def numbering(kind, n, rng=None):
         return {q: 7 * q + 3 for q in range(n)}
     if kind == "shift":
         return {q: q + 100 for q in range(n)}
+    if kind == "huge":
+        # about half of the states get numbers beyond 32 bits (the driver maps 10^9 + q to 2^33 + q), the others keep theirs
+        f = {q: (10 ** 9 + q if rng.random() < 0.5 else q) for q in range(n)}
+        if n and all(v < 10 ** 9 for v in f.values()):
+            f[rng.randrange(n)] += 10 ** 9
+        return f
     if kind == "perm":
         p = list(range(n))
         rng.shuffle(p)
